@@ -13,13 +13,14 @@ static std::string asmline_path() { const char *e = getenv("VERIF_ASMLINE"); if 
 static std::string tmpdir() { static std::string d; if (d.empty()) { const char *root = getenv("VERIF_ROOT"); std::string rb = std::string(root ? root : "/verif") + "/build"; d = rb + "/tmp"; mkdir(rb.c_str(), 0755); mkdir(d.c_str(), 0755); d += "/c" + std::to_string(getpid()); mkdir(d.c_str(), 0755); } return d; }
 
 struct Spawned { int status = -1; std::string out; bool ok = false; };
-static Spawned spawn(const std::vector<std::string> &argv, const std::string &stdin_data, bool use_stdin) {
+static Spawned spawn(const std::vector<std::string> &argv, const std::string &stdin_data, bool use_stdin, const std::string &cwd) {
   Spawned r; int inp[2], outp[2]; if (pipe(inp) || pipe(outp)) return r;
   // keep the pipe ends away from the standard descriptors whatever the environment looks like
   for (int *fd : {&inp[0], &inp[1], &outp[0], &outp[1]}) { int hi = fcntl(*fd, F_DUPFD_CLOEXEC, 20); if (hi >= 0) { close(*fd); *fd = hi; } }
   posix_spawn_file_actions_t fa; posix_spawn_file_actions_init(&fa);
   posix_spawn_file_actions_adddup2(&fa, inp[0], 0); posix_spawn_file_actions_adddup2(&fa, outp[1], 1);
   posix_spawn_file_actions_addopen(&fa, 2, "/dev/null", O_WRONLY, 0);
+  posix_spawn_file_actions_addchdir_np(&fa, cwd.c_str());   // output names are passed relative: asmline refuses -o names containing a dot, and the directory may
   posix_spawn_file_actions_addclose(&fa, inp[1]); posix_spawn_file_actions_addclose(&fa, outp[0]);
   std::vector<char *> av; for (auto &a : argv) av.push_back(const_cast<char *>(a.c_str())); av.push_back(nullptr);
   pid_t pid; int e = posix_spawn(&pid, av[0], &fa, nullptr, av.data(), environ);
@@ -73,9 +74,10 @@ static CV check20(const CliCase &c) {
   unlink(praw.c_str()); unlink((oname + ".bin").c_str());
   std::vector<std::string> av{asmline_path()}; for (int m : c.modeflags) av.push_back(MODEFLAGS[m]);
   if (c.chunk) { av.push_back("-c"); av.push_back(std::to_string(c.chunk)); } if (c.brk) { av.push_back("-b"); av.push_back(std::to_string(c.brk)); } if (c.p) av.push_back("-p"); if (c.r) av.push_back("-r");
-  if (c.outkind == 1) { av.push_back("-P"); av.push_back(praw); } if (c.outkind == 2) { av.push_back("-o"); av.push_back(oname); } if (c.outkind == 3) { av.push_back("-P"); av.push_back("/nonexistent-dir/x"); }
+  auto rel = [&](const std::string &p) { return p.substr(dir.size() + 1); };
+  if (c.outkind == 1) { av.push_back("-P"); av.push_back(rel(praw)); } if (c.outkind == 2) { av.push_back("-o"); av.push_back(rel(oname)); } if (c.outkind == 3) { av.push_back("-P"); av.push_back("/nonexistent-dir/x"); }
   if (!c.from_stdin) av.push_back(src);
-  Spawned r = spawn(av, text, c.from_stdin);
+  Spawned r = spawn(av, text, c.from_stdin, dir);
   if (!r.ok) return bad("harness", "cannot run " + av[0]);
   bool want_ok = want_rc == 0 && c.outkind != 3;
   if ((r.status == 0) != want_ok) return bad("exit-status", "exit status " + std::to_string(r.status) + " ; library assembly rc " + std::to_string(want_rc) + (c.outkind == 3 ? ", output path not writable" : ""));
